@@ -151,6 +151,8 @@ func interopLegA(r *core.Run, proto *spec.Proto, n int, opt spec.GenOpt) {
 	var ends []int
 	for i := 0; i < n; i++ {
 		pd := proto.PDUs[c.Intn(len(proto.PDUs))]
+		opt := opt
+		opt.Shape = c.Pick(10, 1, 1) // also the smallest and the largest image of every type
 		m := spec.Gen(c, pd, opt)
 		pdu := ToGo(m)
 		fillExtras(c, pdu, pd)
@@ -383,6 +385,8 @@ func interopLegB(r *core.Run, proto *spec.Proto, n int, opt spec.GenOpt) {
 	var ends []int
 	for i := 0; i < n; i++ {
 		pd := proto.PDUs[c.Intn(len(proto.PDUs))]
+		opt := opt
+		opt.Shape = c.Pick(10, 1, 1)
 		m := spec.Gen(c, pd, opt)
 		b, _ := spec.Build(m)
 		out = append(out, img{m, pd, b})
